@@ -601,6 +601,55 @@ pub fn display_triples(worker: usize, workers: usize, sink: &mut Sink) {
     sink.add("display_triples", n);
 }
 
+/// A sink that accepts `room` bytes and then fails.
+struct Limited {
+    room: usize,
+    got: String,
+}
+impl std::fmt::Write for Limited {
+    fn write_str(&mut self, s: &str) -> std::fmt::Result {
+        if s.len() > self.room {
+            return Err(std::fmt::Error);
+        }
+        self.room -= s.len();
+        self.got.push_str(s);
+        Ok(())
+    }
+}
+
+/// Printing into sinks that fail after 0..3 bytes (a full line buffer): the failed print must not change what
+/// the next prints produce. Every action value x every room x every following action value.
+pub fn display_into_failing_sinks(worker: usize, workers: usize, sink: &mut Sink) {
+    use std::fmt::Write;
+    let t = tables();
+    let acts: Vec<Action> = (0..263u16).map(|c| t.act_by_code[c as usize]).collect();
+    let texts: Vec<String> = (0..263u16).map(code_text).collect();
+    let mut n = 0u64;
+    for i in (worker..263).step_by(workers.max(1)) {
+        for room in 0..4usize {
+            let r = guard("action round trip", || {
+                let mut bad: Option<(usize, String)> = None;
+                for k in 0..263usize {
+                    let mut w = Limited { room, got: String::new() };
+                    let _ = write!(w, "{}", acts[i]);
+                    let z = acts[k].to_string();
+                    if bad.is_none() && z != texts[k] {
+                        bad = Some((k, z));
+                    }
+                }
+                bad
+            });
+            n += 263;
+            match r {
+                Err(p) => string_violation(sink, "C16", "printer_panicked", "Action", &texts[i], format!("into a sink with room for {} bytes: site={} msg={:?}", room, p.site, p.msg)),
+                Ok(Some((k, got))) => string_violation(sink, "C16", "printed_text_depends_on_previous_prints", "Action", &format!("{} then {}", texts[i], texts[k]), format!("after printing {} into a sink that fails after {} bytes, {} prints as {:?}", texts[i], room, texts[k], got)),
+                Ok(None) => {}
+            }
+        }
+    }
+    sink.add("prints_after_a_failed_print", n);
+}
+
 /// Short parse HISTORIES: for every move token T, every one-character token X and a set of tokens Y
 /// derived from them (file letter, rank digit, direction letter, prefixes, suffixes, NUL-padded forms,
 /// another move from the same square), every sequence of four parses over {T, X, Y} - each parse judged
@@ -646,6 +695,7 @@ pub fn run_w10(random_n: u64, seed: u64, worker: usize, workers: usize, sink: &m
         judge_value_spaces(sink);
     }
     display_triples(worker, workers, sink);
+    display_into_failing_sinks(worker, workers, sink);
     parse_histories(worker, workers, sink);
     let hostile: Vec<String> = ALPHABET.iter().map(|s| s.to_string()).collect();
     exhaustive_strings(&hostile, 4, worker, workers, "exhaustive_hostile_alphabet_len_le_4", sink);
